@@ -147,3 +147,22 @@ def refusal_key(fail: dict) -> str:
     import re
     msg = re.sub(r"[0-9]+", "N", fail.get("msg", ""))[:60]
     return f"raised|{fail['exc']}|{msg}"
+
+
+def indent_key(out: str, ln: dict) -> str:
+    """Signature of a badly indented own-line comment / closing delimiter: kind, enclosing construct, what precedes it."""
+    from .project import enclosing_type, items_pos
+    at = ln.get("at", 0)
+    parent = enclosing_type(out, at, at)
+    its, pos = items_pos(out)
+    idx = next((k for k, (s, e) in enumerate(pos) if s <= at < e), len(its) - 1)
+    prev = _prev_tok(its, idx)
+    if ln.get("kind") == "close":
+        rel = "deeper" if ln["ind"] > ln["open_ind"] else "shallower"
+        return f"C18_Indent|close|{parent}|{rel}_than_opener_line"
+    me = its[idx] if its[idx]["k"] == "c" else {"kind": "?"}
+    before = next((its[j] for j in range(idx - 1, -1, -1) if its[j]["k"] != "g"), None)
+    pk = "BOF" if before is None else ("cmt:" + before["kind"]) if before["k"] == "c" else kind_of(before)
+    gap = its[idx - 1] if idx > 0 else {"nl": 0}
+    return (f"C18_Indent|comment:{me.get('kind', '?')}|{parent}|prev={pk}|blank_before={gap.get('nl', 0) >= 2}"
+            f"|ind={'0' if ln.get('ind', 0) == 0 else 'n'}")
